@@ -3,7 +3,7 @@ use crate::errors::{Result, SvgdxError};
 use crate::events::InputEvent;
 use crate::expression::eval_attr;
 use crate::position::{BoundingBox, Size};
-use crate::types::{attr_split, extract_urlref, strp, AttrMap, ClassList, ElRef};
+use crate::types::{attr_split, extract_urlref, href_elref, strp, AttrMap, ClassList, ElRef};
 use crate::TransformConfig;
 
 use std::cell::RefCell;
@@ -204,22 +204,43 @@ impl TransformerContext {
         el: &SvgElement,
         clip_chain: &mut Vec<ElRef>,
     ) -> Result<Option<BoundingBox>> {
-        let target_el = el.get_target_element(self)?;
-        let is_use = el.name == "use" || el.name == "reuse";
-        // The box in `el`'s own user space: its `transform` is applied last, since
-        // both the x / y of a `use` and a `clip-path` take effect inside it.
-        let mut el_bbox = if is_use {
-            target_el.bbox()?
-        } else {
-            el.local_bbox()?
-        };
+        // (reports a chain of references which never ends)
+        el.get_target_element(self)?;
+        // The `use` elements leading from `el` to what is finally drawn, outermost
+        // first: each has a position, a `clip-path` and a `transform` of its own.
+        let mut uses = vec![];
+        let mut target_el = el;
+        while target_el.name == "use" || target_el.name == "reuse" {
+            let href = target_el
+                .get_attr("href")
+                .or_else(|| target_el.get_attr("xlink:href"))
+                .ok_or_else(|| SvgdxError::MissingAttribute("href".to_owned()))?;
+            let Some(elref) = (match target_el.name.as_str() {
+                "use" => href_elref(&href),
+                _ => Some(href.parse()?),
+            }) else {
+                break;
+            };
+            uses.push(target_el);
+            target_el = self
+                .get_element(&elref)
+                .ok_or(SvgdxError::ReferenceError(elref))?;
+        }
 
-        if is_use {
-            // assumes el has already had position & attributes resolved
-            let translate_x = el.get_attr("x");
-            let translate_y = el.get_attr("y");
+        // The box in an element's own user space: its `transform` is applied last, since
+        // both the x / y of a `use` and a `clip-path` take effect inside it.
+        let mut el_bbox = target_el.local_bbox()?;
+        if let Some(bbox) = el_bbox {
+            el_bbox = self.apply_clip_path(target_el, bbox, clip_chain)?;
+        }
+        el_bbox = target_el.transformed(el_bbox)?;
+
+        for use_el in uses.into_iter().rev() {
+            // assumes use_el has already had position & attributes resolved
+            let translate_x = use_el.get_attr("x");
+            let translate_y = use_el.get_attr("y");
             if translate_x.is_some() || translate_y.is_some() {
-                if let Some(ref mut bbox) = &mut el_bbox {
+                if let Some(bbox) = el_bbox {
                     // a position with units (e.g. "10px") is passed through; there is
                     // then no bounding box in user units to offer.
                     el_bbox = match (
@@ -231,44 +252,52 @@ impl TransformerContext {
                     };
                 }
             }
+            if let Some(bbox) = el_bbox {
+                el_bbox = self.apply_clip_path(use_el, bbox, clip_chain)?;
+            }
+            el_bbox = use_el.transformed(el_bbox)?;
         }
+        Ok(el_bbox)
+    }
 
-        // TODO: this logic is duplicated in `impl EventGen for SvgElement` so
-        // it works in both '^' contexts and root SVG bbox generation context.
-        // Can't just move this to SvgElement::bbox() as it needs ElementMap.
+    /// The part of `bbox` (in `el`'s own user space) left by the `clipPath` which `el`
+    /// refers to, if it does.
+    fn apply_clip_path(
+        &self,
+        el: &SvgElement,
+        bbox: BoundingBox,
+        clip_chain: &mut Vec<ElRef>,
+    ) -> Result<Option<BoundingBox>> {
         // Only a `url(#id)` value refers to a clipPath element; `none`, `inherit`
         // and basic shapes are valid values which don't affect the bounding box.
-        if let (Some(clip_id), Some(ref mut bbox)) = (
-            el.get_attr("clip-path")
-                .and_then(|url| extract_urlref(&url)),
-            &mut el_bbox,
-        ) {
-            let clip_el = self
-                .get_element(&clip_id)
-                .ok_or_else(|| SvgdxError::ReferenceError(clip_id.clone()))?;
-            if clip_el.name == "clipPath" {
-                if clip_chain.contains(&clip_id) {
-                    return Err(SvgdxError::CircularRefError(format!(
-                        "clip-path {clip_id} refers to itself"
-                    )));
-                }
-                // a chain of clip paths clipping each other is followed recursively
-                if clip_chain.len() >= self.config.depth_limit as usize {
-                    return Err(SvgdxError::DepthLimitExceeded(
-                        clip_chain.len() as u32 + 1,
-                        self.config.depth_limit,
-                    ));
-                }
-                clip_chain.push(clip_id);
-                let clip_bbox = self.clipped_element_bbox(clip_el, clip_chain);
-                clip_chain.pop();
-                if let Some(clip_bbox) = clip_bbox? {
-                    el_bbox = bbox.intersect(&clip_bbox);
-                }
-            }
+        let Some(clip_id) = el
+            .get_attr("clip-path")
+            .and_then(|url| extract_urlref(&url))
+        else {
+            return Ok(Some(bbox));
+        };
+        let clip_el = self
+            .get_element(&clip_id)
+            .ok_or_else(|| SvgdxError::ReferenceError(clip_id.clone()))?;
+        if clip_el.name != "clipPath" {
+            return Ok(Some(bbox));
         }
-
-        el.transformed(el_bbox)
+        if clip_chain.contains(&clip_id) {
+            return Err(SvgdxError::CircularRefError(format!(
+                "clip-path {clip_id} refers to itself"
+            )));
+        }
+        // a chain of clip paths clipping each other is followed recursively
+        if clip_chain.len() >= self.config.depth_limit as usize {
+            return Err(SvgdxError::DepthLimitExceeded(
+                clip_chain.len() as u32 + 1,
+                self.config.depth_limit,
+            ));
+        }
+        clip_chain.push(clip_id);
+        let clip_bbox = self.clipped_element_bbox(clip_el, clip_chain);
+        clip_chain.pop();
+        Ok(clip_el.clip(bbox, clip_bbox?, self))
     }
 }
 
